@@ -14,13 +14,25 @@ func c11Specs(tier string) []*Spec {
 	}
 	cold := Cfg{Fast: false, Cache: 0}
 	full := Alpha{Writes: true, Save: true, Rollback: true, Reopen: []reopenVar{{0, false, 0}}, DelTo: true, LVFO: true}
+	// rollback-and-redo with a warm node cache: commit, read (fills the cache), roll back, commit other contents under
+	// the same node keys - rank and key lookups of the rewritten version must not meet nodes of the discarded one
+	redo := Alpha{Writes: true, NoRemove: true, Save: true, LVFO: true, ReadAll: true, MaxVersions: 2}
+	addRedo := func(name string, cfg Cfg, depth int) {
+		ks := bs("a", "b")
+		pr := probesFor(ks)
+		specs = append(specs, &Spec{Weight: 4, ID: "C11", Name: name, Cfg: cfg, Keys: ks, Vals: bs("x", "y"), MaxDepth: depth, MaxMaint: 1,
+			Alphabet: redo.Ops, Oracles: []Oracle{oracleBalance(pr, true), oracleReads(pr)}})
+	}
 	if tier == "quick" {
+		addRedo("redo/cache1000-nofast/2keys/d7", Cfg{Fast: false, Cache: 1000}, 7)
 		add("cold/emptykey/d5", cold, [][]byte{{}, []byte("a"), {0x00}, []byte("b")}, 5, writes, 0)
 		add("cold/7keys/d6", cold, k7, 6, writes, 0)
 		add("cold/3keys+maint/d5", cold, bs("a", "ab", "b"), 5, full, 2)
 		add("default/7keys/d5", defaultCfg, k7, 5, writes, 0)
 		return specs
 	}
+	addRedo("redo/cache1000-nofast/2keys/d10", Cfg{Fast: false, Cache: 1000}, 10)
+	addRedo("redo/cache1000/2keys/d9", Cfg{Fast: true, Cache: 1000}, 9)
 	add("cold/emptykey/d7", cold, [][]byte{{}, []byte("a"), {0x00}, []byte("b")}, 7, writes, 0)
 	add("cold/7keys/d8", cold, k7, 8, writes, 0)
 	add("cold/8keys-insert-only/d9", cold, k8, 9, Alpha{Writes: true, Save: true, NoRemove: true, MaxVersions: 1}, 0)
